@@ -160,3 +160,124 @@ func Bad_E1_leakyhelper(r *e1req, id string) {
 	}
 	e1sink(r)
 }
+
+// ---- helpers interpreted in place (e1_inline.go) -------------------------------------------------------------------
+
+func e1guardAndSink(r *e1req, id string) error {
+	if err := e1check(r.ID, id); err != nil {
+		return err
+	}
+	e1sink(r)
+	return nil
+}
+
+func e1sinkOnly(r *e1req) { e1sink(r) }
+
+func e1needsCheck(r *e1req, fast bool) bool { return !fast || r.Client == "" }
+
+// the guard is in the caller, the sink in a helper
+func Good_E1_sinkinhelper(r *e1req, id string) {
+	if err := e1check(r.ID, id); err != nil {
+		return
+	}
+	e1sinkOnly(r)
+}
+
+// guard and sink both moved into a helper
+func Good_E1_allinhelper(r *e1req, id string) {
+	_ = e1guardAndSink(r, id)
+}
+
+// the helper with the sink is reached on an unguarded path
+func Bad_E1_sinkinhelper(r *e1req, id string, fast bool) {
+	if !fast {
+		if err := e1check(r.ID, id); err != nil {
+			return
+		}
+	}
+	e1sinkOnly(r)
+}
+
+// a boolean helper decides whether the check is needed: its false answer says nothing about the check
+func Bad_E1_boolhelper(r *e1req, id string, fast bool) {
+	if e1needsCheck(r, fast) {
+		if err := e1check(r.ID, id); err != nil {
+			return
+		}
+	}
+	e1sink(r)
+}
+
+// boolean temporary and switch form of the same guard
+func Good_E1_booltemp(r *e1req, id string) {
+	failed := e1check(r.ID, id) != nil
+	switch {
+	case failed:
+		return
+	default:
+		e1sink(r)
+	}
+}
+
+// ---- membership and quantified loop facts (e1_quant.go) ------------------------------------------------------------
+
+func e1sinkAll(r *e1req, ids []string) {}
+
+func e1known(allowed []string, id string) bool {
+	for i := 0; i < len(allowed); i++ {
+		if allowed[i] == id {
+			return true
+		}
+	}
+	return false
+}
+
+// every element checked in a range loop
+func Good_E1_allrange(r *e1req, ids, allowed []string) {
+	for _, id := range ids {
+		if !e1known(allowed, id) {
+			return
+		}
+	}
+	e1sinkAll(r, ids)
+}
+
+// every element checked in an index loop through a helper predicate
+func Good_E1_allindex(r *e1req, ids, allowed []string) {
+	for i := 0; i < len(ids); i++ {
+		found := false
+		for _, a := range allowed {
+			if a == ids[i] {
+				found = true
+			}
+		}
+		_ = found
+		if !e1known(allowed, ids[i]) {
+			return
+		}
+	}
+	e1sinkAll(r, ids)
+}
+
+// the loop skips elements: not all of them were checked
+func Bad_E1_allskips(r *e1req, ids, allowed []string) {
+	for i, id := range ids {
+		if i == 0 {
+			continue
+		}
+		if !e1known(allowed, id) {
+			return
+		}
+	}
+	e1sinkAll(r, ids)
+}
+
+// the loop ends early: the sink is reached after a break
+func Bad_E1_allbreaks(r *e1req, ids, allowed []string) {
+	for _, id := range ids {
+		if !e1known(allowed, id) {
+			break
+		}
+	}
+	e1sinkAll(r, ids)
+}
